@@ -41,7 +41,7 @@ def prepare(tag, inject=None, contracts=None):
         with open(p, 'a') as f:
             f.write('\n')
             for name, src in mods:
-                f.write(f'#[cfg(kani)] #[path = "{VERIF}/kani/src/{src}"] mod {name};\n')
+                f.write(f'#[cfg(kani)] #[path = "{VERIF}/kani/src/{src}"] pub(crate) mod {name};\n')
     for c in (contracts or []):
         insert_attrs(os.path.join(d, c['file']), c['impl'], c['fn'], c['attrs'])
     os.makedirs(os.path.join(d, '.cargo'), exist_ok=True)
